@@ -81,6 +81,12 @@ if "--skip-suite" not in ARGS:
     res["suite_with_patch"] = dict(rc=rc, result=tr, failed_first_run=failed, failed_after_isolated_rerun=still)
     res["suite_passes"] = bool(tr) and not still and len(failed) <= 12
     reset_wt()
+    if "--suite-only" in ARGS:
+        json.dump(dict(id=ID, at=res["at"], suite_with_patch=res["suite_with_patch"], suite_passes=res["suite_passes"],
+                       note="whole `cargo test -p ipa-core --lib` with only the patch applied, run by lib/seedrun.py --suite-only in a scratch worktree"),
+                  open(os.path.join(SD, "suite.json"), "w"), indent=1)
+        print(json.dumps(res["suite_with_patch"], indent=1)[:600])
+        sys.exit(0)
 
 # run the check against the patched tree
 sh(f"git -C {WT} apply {SD}/patch.diff")
